@@ -194,7 +194,12 @@ static UNDER_PATTERNS: &[&dyn UnderPattern] = &[
         (PopUnd(1), Flip, PopUnd(1), UndoGet),
     )),
     &Stash(2, Remove, UndoRemove),
-    &MaybeVal((Insert, (CopyUnd(3), Insert), (PopUnd(3), UndoInsert))),
+    // Both the key and the value may be constant
+    &MaybeVal(MaybeVal((
+        Insert,
+        (CopyUnd(3), Insert),
+        (PopUnd(3), UndoInsert),
+    ))),
     // Shaping
     &(Fix, (Fix), (UndoFix)),
     &(UndoFix, (UndoFix), (Fix)),
